@@ -71,6 +71,32 @@ pub fn body<D: Dd + Send, C: Cache<State = St> + Send + Sync + Default>(c: &ParC
         exempt = Some(sorted);
         solver.set_primal(vq, sq);
     }
+    if c.mode == "warm" && all.len() >= 2 && want("C14") {
+        // set_primal replaces the incumbent only when the new value is strictly greater (parallel solver)
+        let mk = |q: &OPath| -> (Cost, Solution) {
+            (t.init.plus(q.value), q.decs.iter().filter(|(_, val)| *val < t.sh.d).map(|(var, val)| Decision { variable: Variable(*var), value: Cost::lit(*val as i64) }).collect())
+        };
+        let (v1, s1) = mk(&all[c.warm % all.len()]);
+        let (v2, s2) = mk(&all[(c.warm + 1) % all.len()]);
+        let mut fr2 = SimpleFringe::new(MaxUB::new(&ranking));
+        let never = PollCutoff::never();
+        let mut p2 = ParallelSolver::<St, D, C>::custom(&t, &t, &ranking, width, &dominance, &never, &mut fr2, 1);
+        p2.set_primal(v1, s1.clone());
+        p2.set_primal(v2, s2.clone());
+        let bv = p2.best_value().expect("value after set_primal");
+        oblige("C14:set-primal-max", bv.eq_c(v1.mx(v2)));
+        if s1 != s2 {
+            let kept = p2.best_solution();
+            let second_greater = v2.gt_c(v1);
+            if kept == Some(s2.clone()) {
+                oblige("C14:set-primal-strict", second_greater);
+            } else if kept == Some(s1.clone()) {
+                oblige("C14:set-primal-strict", second_greater.not());
+            } else {
+                panic!("SYMX-LABEL[C14:set-primal-solution] incumbent solution is neither of the two supplied");
+            }
+        }
+    }
     symx_sched::begin(workers, c.max_preempt, c.seq_steps, c.map_yield);
     let r = catch_unwind(AssertUnwindSafe(|| solver.maximize()));
     let sum = symx_sched::end();
